@@ -13,14 +13,19 @@
 (* counter right after UnregisterPrompter returned (unreg.ticket, -1 if it  *)
 (* was not called or did not return).  Tickets order the events exactly, so *)
 (* no verdict depends on time.                                              *)
+(* Each registration ("gen") carries its invocations [tin, tout, conc, fail,  *)
+(* gated] and maxin = the largest number of invocations the prompter itself  *)
+(* counted inside at once (under its own mutex).  Invocations may return an  *)
+(* error (fail); in gated scenarios the failing invocation stayed inside     *)
+(* until r.gate.parked other calls were parked on the same identifier.       *)
 (* Mode: one prompt text and the mode the real determineResponseMode gave.  *)
 (***************************************************************************)
 EXTENDS PromptProps, Integers, FiniteSets, TraceKit
 
 CONSTANT Want
 
-VARIABLES l, fails, ninv, nafter, necho, done
-tvars == <<l, fails, ninv, nafter, necho, done>>
+VARIABLES l, fails, ninv, nafter, necho, nfail, ngated, done
+tvars == <<l, fails, ninv, nafter, necho, nfail, ngated, done>>
 
 SetMax(S) == CHOOSE x \in S : \A y \in S : x >= y
 RECURSIVE SumLen(_, _)
@@ -30,6 +35,11 @@ SumLen(gs, n) == IF n = 0 THEN 0 ELSE Len(gs[n].invs) + SumLen(gs, n - 1)
 Overlap(I, k) == 1 + Cardinality({j \in DOMAIN I : j # k /\ I[j].tin < I[k].tin /\ I[k].tin < I[j].tout})
 MaxConc(I) == SetMax({Overlap(I, k) : k \in DOMAIN I} \cup {I[k].conc : k \in DOMAIN I} \cup {0})
 UsedAfter(I, u) == Cardinality({k \in DOMAIN I : I[k].tout > u})
+InsideAt(I, u) == Cardinality({k \in DOMAIN I : I[k].tin < u /\ u < I[k].tout})     \* inside when Unregister returned
+StartedAfter(I, u) == Cardinality({k \in DOMAIN I : I[k].tin > u})                  \* entered after it returned
+RECURSIVE SumFail(_, _)
+SumFail(gs, n) == IF n = 0 THEN 0
+                  ELSE Cardinality({k \in DOMAIN gs[n].invs : gs[n].invs[k].fail}) + SumFail(gs, n - 1)
 
 \* r.gens: one entry per registration (identifier p, generation gen: the same identifier registered
 \* again after its unregistration is a new registration with a new prompter)
@@ -38,6 +48,14 @@ RegistryFails(i, r) ==
     \o Chk(Want, i, "C32_NoUseAfterUnregister",
            \A g \in DOMAIN r.gens :
               C32_NoUseAfterUnregister(r.gens[g].unreg.ticket >= 0, UsedAfter(r.gens[g].invs, r.gens[g].unreg.ticket)))
+    \* the same three questions asked of the prompter's own bookkeeping, one by one
+    \o Chk(Want, i, "C32_NoConcurrentInvocation", \A g \in DOMAIN r.gens : C32_Exclusive(r.gens[g].maxin))
+    \o Chk(Want, i, "C32_UnregisterWaitsForInFlight",
+           \A g \in DOMAIN r.gens :
+              C32_NoUseAfterUnregister(r.gens[g].unreg.ticket >= 0, InsideAt(r.gens[g].invs, r.gens[g].unreg.ticket)))
+    \o Chk(Want, i, "C32_UnregisteredNeverInvoked",
+           \A g \in DOMAIN r.gens :
+              C32_NoUseAfterUnregister(r.gens[g].unreg.ticket >= 0, StartedAfter(r.gens[g].invs, r.gens[g].unreg.ticket)))
     \o Chk(Want, i, "C32_NoPanic", C32_NoPanic(Len(r.panics)))
     \* registration, every Message/Prompt and the unregistrations came back (10 s watchdog in the driver)
     \o Chk(Want, i, "C32_CallsReturn", ~r.hung \/ r.elapsed < 5000000)
@@ -50,7 +68,7 @@ RecFails(i, r) ==
   ELSE IF r.ev = "Mode" /\ Has(r, "prompt") /\ Has(r, "mode") THEN ModeFails(i, r)
   ELSE <<Fail(i, "C32_TraceAccepted")>>
 
-TInit == l = 1 /\ fails = <<>> /\ ninv = 0 /\ nafter = 0 /\ necho = 0 /\ done = FALSE
+TInit == l = 1 /\ fails = <<>> /\ ninv = 0 /\ nafter = 0 /\ necho = 0 /\ nfail = 0 /\ ngated = 0 /\ done = FALSE
 Step == /\ l <= NRec
         /\ LET r == Trace[l] IN
            /\ fails' = Cap(fails \o RecFails(l, r))
@@ -58,9 +76,12 @@ Step == /\ l <= NRec
            /\ nafter' = nafter + (IF Has(r, "gens")
                                   THEN Cardinality({g \in DOMAIN r.gens : r.gens[g].unreg.ticket >= 0}) ELSE 0)
            /\ necho' = necho + (IF Has(r, "mode") /\ r.mode = "echo" THEN 1 ELSE 0)
+           /\ nfail' = nfail + (IF Has(r, "gens") THEN SumFail(r.gens, Len(r.gens)) ELSE 0)
+           /\ ngated' = ngated + (IF Has(r, "gate") /\ r.gate.reached /\ r.gate.parked >= r.gate.want THEN 1 ELSE 0)
         /\ l' = l + 1 /\ UNCHANGED done
 Finish == /\ l = NRec + 1 /\ ~done
-          /\ WriteResult(l - 1, fails, [stat_invocations |-> ninv, stat_unregistrations_returned |-> nafter, stat_echo |-> necho])
-          /\ done' = TRUE /\ UNCHANGED <<l, fails, ninv, nafter, necho>>
+          /\ WriteResult(l - 1, fails, [stat_invocations |-> ninv, stat_unregistrations_returned |-> nafter, stat_echo |-> necho,
+                                        stat_failed_invocations |-> nfail, stat_gated_failures_all_parked |-> ngated])
+          /\ done' = TRUE /\ UNCHANGED <<l, fails, ninv, nafter, necho, nfail, ngated>>
 TSpec == TInit /\ [][Step \/ Finish]_tvars
 ====
